@@ -215,7 +215,10 @@ func Gen(caseID, tier string) (json.RawMessage, error) {
 		if s.p != nil {
 			dup := false
 			for _, q := range tp.Perturb {
-				dup = dup || q.Kind == s.p.Kind || (strings.HasPrefix(q.Kind, "caddr") && strings.HasPrefix(s.p.Kind, "caddr")) // two changes to one field can cancel
+				// two changes to one field can cancel (addresses added and dropped; a ciphertext
+				// extended by one byte and cut by one byte)
+				dup = dup || q.Kind == s.p.Kind || (strings.HasPrefix(q.Kind, "caddr") && strings.HasPrefix(s.p.Kind, "caddr")) ||
+					(strings.HasPrefix(q.Kind, "enc-") && strings.HasPrefix(s.p.Kind, "enc-"))
 			}
 			if dup {
 				continue
